@@ -327,7 +327,12 @@ func runC12(cfg *vh.Config) error {
 			res.Count("unit-explicit-zero-option")
 		}
 		var props []genDecl
-		for i, n := 0, r.Range(2, 6); i < n; i++ {
+		if u == 0 {
+			env = theEnumZ
+			props = pinnedC12()
+			res.Count("unit-pinned")
+		}
+		for i, n := 0, r.Range(2, 6); i < n && u > 0; i++ {
 			scope := "c12"
 			if r.Chance(12) {
 				scope = "all"
